@@ -8,7 +8,7 @@ TYPES_KEPT = f"forall(0, len({M}), lambda j: {Mj}.message_type == old({Mj}.messa
 
 # ---------------------------------------------------------------- transpose (C14.a, C14.b)
 contract("RelativeSequence.transpose", params={"self": "ref:RelativeSequence", "transpose_by": "int"}, result="bool",
-         requires=[WF_REL(), f"forall(0, len({M}), lambda j: implies({NOTE(Mj)}, not is_none({Mj}.note)) and implies({IS(Mj, 'KEY_SIGNATURE')}, not is_none({Mj}.key)))"],
+         requires=[WF_REL()],
          modifies={"note": M, "key": M},
          ensures=[
              ("in_range", f"forall(0, len({M}), lambda j: implies({NOTE(Mj)}, NOTE_LOWER_BOUND <= {Mj}.note and {Mj}.note <= NOTE_UPPER_BOUND))"),
@@ -19,6 +19,7 @@ contract("RelativeSequence.transpose", params={"self": "ref:RelativeSequence", "
              ("keys_transposed", f"forall(0, len({M}), lambda j: implies({IS(Mj, 'KEY_SIGNATURE')}, not is_none({Mj}.key) and tonic({Mj}.key) == (tonic(old({Mj}.key)) + transpose_by) % 12))"),
              ("non_notes_keep_note", f"forall(0, len({M}), lambda j: implies(not {NOTE(Mj)}, {Mj}.note == old({Mj}.note) and is_none({Mj}.note) == old(is_none({Mj}.note))))"),
              ("list_unchanged", f"len({M}) == old(len({M})) and forall(0, len({M}), lambda j: {Mj} == old({Mj}))"),
+             ("still_wf", WF_REL()),
          ],
          loops={
              "L0": dict(fingerprint="for msg in self._messages", inv=[
@@ -88,3 +89,20 @@ contract("RelativeSequence.scale", params={"self": "ref:RelativeSequence", "fact
              ("done_others", f"forall(0, i, lambda j: implies(not {IS(Mj, 'WAIT')}, {Mj}.time == old({Mj}.time) and is_none({Mj}.time) == old(is_none({Mj}.time))))"),
              ("rest", f"forall(i, len({M}), lambda j: {Mj}.time == old({Mj}.time) and is_none({Mj}.time) == old(is_none({Mj}.time)))")])},
          props=["C18"])
+
+# ---------------------------------------------------------------- to_absolute_sequence (C04, C16, C11)
+AS = "absolute_sequence._messages"
+RA = "result._messages"
+FRESH_LIST = lambda L: f"forall(0, len({L}), lambda j: fresh({L}[j]))"
+contract("RelativeSequence.to_absolute_sequence", params={"self": "ref:RelativeSequence"}, result="ref:AbsoluteSequence", allocates=True,
+         requires=[WF_REL()],
+         ensures=[("fresh_result", f"not is_none(result) and fresh(result) and fresh({RA}) and {FRESH_LIST(RA)}"),
+                  ("wf_abs", WF_ABS(RA)),
+                  ("sorted", SORTED(RA)),
+                  ("source_untouched", f"len({M}) == old(len({M})) and forall(0, len({M}), lambda j: {Mj} == old({Mj}))")],
+         loops={"L0": dict(fingerprint="for msg in self._messages", inv=[
+             ("out_fresh", f"not is_none(absolute_sequence) and fresh(absolute_sequence) and fresh({AS}) and {FRESH_LIST(AS)}"),
+             ("out_wf", WF_ABS(AS)),
+             ("clock", "current_point_in_time >= 0"),
+         ])},
+         props=["C04", "C16", "C11"])
